@@ -172,3 +172,10 @@ SUITES["C07"]["quick"] += [dict(_CO)]
 SUITES["C07"]["thorough"] += [dict(_CO)]
 SUITES["C20"]["thorough"] += [dict(_CO)]
 PROP_INFO["X_COLLIDE"] = dict(X); SUITES["X_COLLIDE"] = {"quick": [dict(_CO)], "thorough": [dict(_CO)]}
+
+# development aid: only the race-detector slices of the families with watchers and stations
+PROP_INFO["X_RACE"] = dict(X); SUITES["X_RACE"] = {"quick": [{"family": "fsm", "mode": "", "share": 1, "race": True}, {"family": "mon", "mode": "", "share": 1, "race": True}, {"family": "gr", "mode": "", "share": 1, "race": True}], "thorough": [{"family": "fsm", "mode": "", "share": 1, "race": True}, {"family": "mon", "mode": "", "share": 1, "race": True}, {"family": "gr", "mode": "", "share": 1, "race": True}, {"family": "rpki", "mode": "", "share": 1, "race": True}, {"family": "bfd", "mode": "", "share": 1, "race": True}, {"family": "collide", "mode": "", "share": 1, "race": True}, {"family": "zebra", "mode": "", "share": 1, "race": True}, {"family": "vpn", "mode": "", "share": 1, "race": True}]}
+
+# the race-detector slice of the quick tier also covers the families with watchers and BMP stations (D49, KF6 were only seen by the thorough tier before)
+SUITES["C20"]["quick"] += [{"family": "fsm", "mode": "", "share": 1, "race": True}, {"family": "mon", "mode": "", "share": 1, "race": True}]
+PROP_INFO["C20"]["budget"] = {"quick": 120, "thorough": 1800}
